@@ -34,7 +34,9 @@ def pkcs7(data):
 
 class Legacy:
     """R2/R3/R4"""
-    def __init__(self, R, keybits, user, owner, P, docid, aes=False, encrypt_metadata=True):
+    def __init__(self, R, keybits, user, owner, P, docid, aes=False, encrypt_metadata=True, v1=False):
+        # v1: write /V 1 (40-bit RC4, no /Length) together with revision 3 - legal: the revision follows the permission bits, not the algorithm version
+        self.v1 = v1 and R == 3 and keybits == 40
         self.R, self.n, self.P, self.docid, self.aes, self.em = R, (5 if R == 2 else keybits // 8), P, docid, aes, encrypt_metadata
         up, op = (user + PAD)[:32], ((owner or user) + PAD)[:32]
         h = hashlib.md5(op).digest()
@@ -73,6 +75,8 @@ class Legacy:
         Ps = self.P if self.P < 2 ** 31 else self.P - 2 ** 32
         d = {"Filter": Name("Standard"), "R": self.R, "O": self.O, "U": self.U, "P": Ps}
         if self.R == 2:
+            d["V"] = 1
+        elif self.R == 3 and self.v1:
             d["V"] = 1
         elif self.R == 3:
             d.update({"V": 2, "Length": self.n * 8})
